@@ -58,7 +58,7 @@ func (fv *FV) note(format string, args ...any) {
 
 func (fv *FV) posStr(p token.Pos) string {
 	pos := fv.eng.fset.Position(p)
-	return fmt.Sprintf("%s:%d", strings.TrimPrefix(pos.Filename, "/repo/go/"), pos.Line)
+	return fmt.Sprintf("%s:%d", strings.TrimPrefix(pos.Filename, repoGo+"/"), pos.Line)
 }
 
 // unknown yields an unconstrained value of the right shape.
@@ -1121,6 +1121,13 @@ func (fv *FV) lvalue(e *Env, x ast.Expr) LV {
 	case *ast.StarExpr:
 		p := fv.expr(e, x.X)
 		t := fv.typeOf(x)
+		if strings.HasPrefix(p.T.S, "(pa$") {
+			// pointer to a scalar/slice field taken with &x.f: resolve back to the field
+			body := p.T.S[len("(pa$") : len(p.T.S)-1]
+			if i := strings.IndexByte(body, ' '); i > 0 {
+				return LV{kind: lvCell, comp: body[:i], idx: []Term{{body[i+1:], sRef}}, typ: t}
+			}
+		}
 		fv.nilCheck(e, x, p.T)
 		if isObjectType(t) {
 			return LV{kind: lvObject, addr: p.T, typ: t}
